@@ -85,7 +85,16 @@ func RunLateDial(t *testing.T, p *plan.Plan, keepLog int) *Result {
 			}
 			dialStream := func(ctx context.Context) (net.Conn, error) {
 				d := delay()
-				time.Sleep(d) // the dial takes its time and does not look at ctx
+				if ld.HonourCtx {
+					select {
+					case <-time.After(d):
+					case <-ctx.Done():
+						s.Logf("latedial", "dial given up at %v: %v", s.Now(), ctx.Err())
+						return nil, ctx.Err()
+					}
+				} else {
+					time.Sleep(d) // the dial takes its time and does not look at ctx
+				}
 				c, err := w.DialProxy(context.Background(), "tcp", target)
 				if err != nil {
 					return nil, err
@@ -101,7 +110,15 @@ func RunLateDial(t *testing.T, p *plan.Plan, keepLog int) *Result {
 			var quicSock net.PacketConn
 			dialQuic := func(ctx context.Context) (quic.Connection, error) {
 				d := delay()
-				time.Sleep(d)
+				if ld.HonourCtx {
+					select {
+					case <-time.After(d):
+					case <-ctx.Done():
+						return nil, ctx.Err()
+					}
+				} else {
+					time.Sleep(d)
+				}
 				pool := x509.NewCertPool()
 				pool.AppendCertsFromPEM(pki.CAPEM)
 				tc := &tls.Config{RootCAs: pool, ServerName: "10.1.0.10", NextProtos: []string{"doq"}}
